@@ -211,6 +211,22 @@ fn run_download(c: &Case, acc: &mut Acc) -> Result<bool, Fail> {
         if !b.more {
             break;
         }
+        if blocks == 1 && c.pre_abandoned && c.path.len() >= 2 {
+            // between two blocks another download starts on a path that only
+            // looks like this one (the segments joined into one); its reply
+            // has more option overhead
+            let mut other = reply.clone();
+            other.options.push((4, vec![0xE8; 8]));
+            other.options.push((8, vec![0x61; 6]));
+            mid += 1;
+            let mut req = c.request(mid, None, None, vec![]);
+            req.path = vec![c.path.join(&b'/')];
+            let out = exchange(&mut handler, &req.msg().encode().unwrap(), 1, &mut |_r| Some(other.clone()));
+            if let Some(msg) = out.panicked() {
+                fail!("c10-panic", "handler panicked on a download of a look-alike path: {msg}");
+            }
+            acc.class("download:look-alike-path-started-between-blocks");
+        }
         if c.high_blocks {
             // jump through the block numbers where the Block2 value changes length
             let last = ((c.body_len - 1) / b.size()) as u32;
